@@ -93,6 +93,13 @@ func (f *Frame) heapWF(name, h, alloc string) {
 			ks := strings.Split(name, "|")[1]
 			f.ctx.Fact(fmt.Sprintf("(forall ((m Ptr) (k %s)) (! (=> %s (or (= (select (select %s m) k) nil) (and (< (pobj (select (select %s m) k)) %s) (not (islocalobj (pobj (select (select %s m) k))))))) :pattern ((select (select %s m) k))))", ks, livem, h, h, alloc, h, h))
 		}
+		// interface-valued maps: a pointer boxed in a stored interface value refers to an allocated,
+		// non-local object (as for H_iface)
+		if strings.HasPrefix(name, "Mval|") && strings.HasSuffix(name, "|Iface") {
+			ks := strings.Split(name, "|")[1]
+			v := fmt.Sprintf("(unbox_Ptr (ival (select (select %s m) k)))", h)
+			f.ctx.Fact(fmt.Sprintf("(forall ((m Ptr) (k %s)) (! (=> %s (or (= %s nil) (and (< (pobj %s) %s) (not (islocalobj (pobj %s)))))) :pattern ((select (select %s m) k))))", ks, livem, v, v, alloc, v, h))
+		}
 		// pointer-keyed maps: every key in the domain refers to an allocated object
 		if strings.HasPrefix(name, "Mdom|Ptr|") {
 			f.ctx.Fact(fmt.Sprintf("(forall ((m Ptr) (k Ptr)) (! (=> (and %s (select (select %s m) k)) (or (= k nil) (and (< (pobj k) %s) (not (islocalobj (pobj k)))))) :pattern ((select (select %s m) k))))", livem, h, alloc, h))
